@@ -10,7 +10,7 @@ namespace Forest
 
 theorem splice_perm (l r ab nk : List HTree) (T : HTree) (hk : T.kids = ab ++ nk) :
     (handlesList (l ++ nk ++ r) ++ (T.handle :: handlesList ab)).Perm (handlesList (l ++ T :: r)) := by
-  simp only [fi_handlesList_append, handlesList_cons, fi_handles_eq T, hk, List.append_assoc, List.cons_append]
+  simp only [fi_handlesList_append, fi_handlesList_cons, fi_handles_eq T, hk, List.append_assoc, List.cons_append]
   refine List.Perm.append_left _ ?_
   -- nk ++ (r ++ h :: ab)  ~  h :: (ab ++ nk ++ r)
   refine List.Perm.trans ?_ (List.Perm.cons _ (List.perm_append_comm (l₁ := handlesList nk ++ handlesList r) (l₂ := handlesList ab)))
@@ -28,7 +28,7 @@ theorem single_of_first_eq_last {F Lk : HTree} {nk' nk0 : List HTree} (h : F :: 
     obtain ⟨h1, h2⟩ := h
     subst h1
     rw [h2] at nd
-    simp only [handlesList_cons, fi_handlesList_append, handlesList_nil, List.append_nil] at nd
+    simp only [fi_handlesList_cons, fi_handlesList_append, fi_handlesList_nil, List.append_nil] at nd
     have := (List.nodup_append.mp nd).2.2 F.handle (fi_handle_mem_handles F) F.handle
       (by simp only [List.mem_append]; right; rw [hh]; exact fi_handle_mem_handles Lk)
     exact this rfl
@@ -76,12 +76,12 @@ theorem elementUnwrap_inv {f : Forest} (hi : f.Inv) (node : Nat) : (f.elementUnw
   have hTvalid := k2'.2.1
   rw [validTree_eq, Bool.and_eq_true] at hTvalid
   have KT := (kidsOK_iff _ _ _).mp hTvalid.1
-  have hsplit : T.kids.takeWhile abn ++ T.kids.dropWhile abn = T.kids := List.takeWhile_append_dropWhile
+  have hsplit : T.kids.takeWhile fiAbn ++ T.kids.dropWhile fiAbn = T.kids := List.takeWhile_append_dropWhile
   have hnkn := normal_dropWhile_of_sorted KT.sorted
   -- the first and the last normal child
-  obtain ⟨F, nk', hnk, hFh⟩ : ∃ F nk', T.kids.dropWhile abn = F :: nk' ∧ F.handle = first := by
+  obtain ⟨F, nk', hnk, hFh⟩ : ∃ F nk', T.kids.dropWhile fiAbn = F :: nk' ∧ F.handle = first := by
     rw [firstChild_eq hK] at hfc
-    cases h : T.kids.dropWhile abn with
+    cases h : T.kids.dropWhile fiAbn with
     | nil => rw [h] at hfc; simp at hfc
     | cons F nk' => rw [h] at hfc; simp at hfc; exact ⟨F, nk', rfl, hfc⟩
   obtain ⟨nk0, Lk, hnk2, hLh⟩ : ∃ nk0 Lk, F :: nk' = nk0 ++ [Lk] ∧ Lk.handle = last := by
@@ -104,17 +104,17 @@ theorem elementUnwrap_inv {f : Forest} (hi : f.Inv) (node : Nat) : (f.elementUnw
       · cases hlc
   have hFn : F.value.category = .normal := hnkn F (by rw [hnk]; simp)
   have hLn : Lk.value.category = .normal := hnkn Lk (by rw [hnk, hnk2]; simp)
-  have hTkids : T.kids = T.kids.takeWhile abn ++ (F :: nk') := by rw [← hnk]; exact hsplit.symm
+  have hTkids : T.kids = T.kids.takeWhile fiAbn ++ (F :: nk') := by rw [← hnk]; exact hsplit.symm
   have hvnk : validList (!f.everOff) (F :: nk') = true := by
     have := hTvalid.2
     rw [hTkids, validList_append, Bool.and_eq_true] at this
     exact this.2
   -- step 1
   rw [removeElement_of_loc hi lc, hnk]
-  have KTw : KidsOK false T.value (T.kids.takeWhile abn ++ (F :: nk')) := by rw [← hTkids]; exact KT.weaken
+  have KTw : KidsOK false T.value (T.kids.takeWhile fiAbn ++ (F :: nk')) := by rw [← hTkids]; exact KT.weaken
   have KS : KidsOK false fr.v (l ++ (F :: nk') ++ r) :=
     K.weaken.splice KTw hTe (fun y hy => hnkn y (by rw [hnk]; exact hy))
-  have hperm0 := splice_perm l r (T.kids.takeWhile abn) (F :: nk') T hTkids
+  have hperm0 := splice_perm l r (T.kids.takeWhile fiAbn) (F :: nk') T hTkids
   have hvalid1 : validList (!f.everOff) (l ++ (F :: nk') ++ r) = true := by
     simp only [validList_append, Bool.and_eq_true]
     exact ⟨⟨k2'.1, hvnk⟩, k2'.2.2⟩
@@ -156,7 +156,7 @@ theorem elementUnwrap_inv {f : Forest} (hi : f.Inv) (node : Nat) : (f.elementUnw
       exact this.1.2
     -- the state after step 1
     have nd1 : ({ f with roots := plug (init ++ [fr]) (l ++ (F :: nk') ++ r) } : Forest).allHandles.Nodup := by
-      have : (handlesList (plug (init ++ [fr]) (l ++ (F :: nk') ++ r)) ++ (T.handle :: handlesList (T.kids.takeWhile abn))).Perm
+      have : (handlesList (plug (init ++ [fr]) (l ++ (F :: nk') ++ r)) ++ (T.handle :: handlesList (T.kids.takeWhile fiAbn))).Perm
           f.allHandles := by
         unfold allHandles; rw [lc.eq]
         refine ((handlesList_plug_perm _ _).append_right _).trans
@@ -177,7 +177,7 @@ theorem elementUnwrap_inv {f : Forest} (hi : f.Inv) (node : Nat) : (f.elementUnw
         validList true Y = true → g.Inv := by
       intro g Y X hg hp hk hv
       rw [hg]
-      apply hi.edit (X ++ (T.handle :: handlesList (T.kids.takeWhile abn))) lc.eq
+      apply hi.edit (X ++ (T.handle :: handlesList (T.kids.takeWhile fiAbn))) lc.eq
       · rw [← List.append_assoc]
         exact (hp.append_right _).trans hperm0
       · rw [innerValue_snoc, hs]; exact hk
@@ -194,18 +194,18 @@ theorem elementUnwrap_inv {f : Forest} (hi : f.Inv) (node : Nat) : (f.elementUnw
         refine List.Nodup.sublist ?_ nd1
         unfold allHandles
         simp only
-        have key : ∀ (pth : List Frame) (X Y : List HTree), (handlesList X).Sublist (handlesList Y) →
+        have key : ∀ (pth : List ZipFrame) (X Y : List HTree), (handlesList X).Sublist (handlesList Y) →
             (handlesList (plug pth X)).Sublist (handlesList (plug pth Y)) := by
           intro pth
           induction pth with
           | nil => intro X Y h; exact h
           | cons fr0 rest ih =>
             intro X Y h
-            simp only [plug_cons, fi_handlesList_append, handlesList_cons, handles_node]
+            simp only [plug_cons, fi_handlesList_append, fi_handlesList_cons, fi_handles_node]
             exact List.Sublist.append_left (List.Sublist.append_right (List.Sublist.cons_cons _ (ih X Y h)) _) _
         apply key
         rw [hl0]
-        simp only [fi_handlesList_append, handlesList_cons, handles_setValue, handlesList_nil,
+        simp only [fi_handlesList_append, fi_handlesList_cons, handles_setValue, fi_handlesList_nil,
           List.append_nil, List.append_assoc]
         refine List.Sublist.append_left (List.Sublist.append_left ?_ _) _
         exact List.sublist_append_right _ _
@@ -213,7 +213,7 @@ theorem elementUnwrap_inv {f : Forest} (hi : f.Inv) (node : Nat) : (f.elementUnw
       have KS1 : KidsOK false fr.v (l0 ++ Pl.setValue (.text (ps ++ fs)) :: (nk' ++ r)) := by
         have h1 : KidsOK false fr.v ((l0 ++ [Pl]) ++ F :: (nk' ++ r)) := by rw [← hl0]; simpa using KS
         have h2 : KidsOK false fr.v (l0 ++ Pl :: (nk' ++ r)) := by simpa using h1.remove (fun hs => by cases hs)
-        exact h2.sameKind (by rw [setValue_value, hPv]; exact ⟨rfl, rfl, rfl, rfl⟩)
+        exact h2.sameKind (by rw [fi_setValue_value, hPv]; exact ⟨rfl, rfl, rfl, rfl⟩)
       have hv1 : validList true (l0 ++ Pl.setValue (.text (ps ++ fs)) :: (nk' ++ r)) = true := by
         rw [hl0] at k2'
         have hl0v : validList true l0 = true ∧ validTree true Pl = true := by
@@ -224,8 +224,8 @@ theorem elementUnwrap_inv {f : Forest} (hi : f.Inv) (node : Nat) : (f.elementUnw
       have hp1 : (handlesList (l0 ++ Pl.setValue (.text (ps ++ fs)) :: (nk' ++ r)) ++ [F.handle]).Perm
           (handlesList (l ++ (F :: nk') ++ r)) := by
         rw [hl0]
-        simp only [fi_handlesList_append, handlesList_cons, handles_setValue, fi_handles_eq F, hFkids,
-          handlesList_nil, List.append_nil, List.append_assoc, List.cons_append, List.nil_append]
+        simp only [fi_handlesList_append, fi_handlesList_cons, handles_setValue, fi_handles_eq F, hFkids,
+          fi_handlesList_nil, List.append_nil, List.append_assoc, List.cons_append, List.nil_append]
         refine List.Perm.append_left _ (List.Perm.append_left _ ?_)
         rw [← List.append_assoc]
         exact List.perm_append_comm (l₂ := [F.handle])
@@ -234,7 +234,7 @@ theorem elementUnwrap_inv {f : Forest} (hi : f.Inv) (node : Nat) : (f.elementUnw
         have := hfl.1
         rw [hl0] at this
         simp only [textFlags_append, textFlags_cons, textFlags_nil, hPt] at this
-        simp only [textFlags_append, textFlags_cons, textFlags_nil, setValue_value]
+        simp only [textFlags_append, textFlags_cons, textFlags_nil, fi_setValue_value]
         exact this
       by_cases hfl2 : first = last
       · -- a single child: consolidate the merged text with the right neighbour
@@ -254,12 +254,12 @@ theorem elementUnwrap_inv {f : Forest} (hi : f.Inv) (node : Nat) : (f.elementUnw
         have enext : ({ f with roots := plug (init ++ [fr]) (l ++ [F] ++ r) } : Forest).nextSibling last =
             ({ f with roots := plug (init ++ [fr]) (l0 ++ Pl.setValue (.text (ps ++ fs)) :: r) } : Forest).nextSibling Pl.handle := by
           rw [← hLh, ← hFL, nextSibling_of_loc_snoc lcF1 nd1, nextSibling_of_loc_snoc lcP2 nd2]
-          simp only [hFn, setValue_value]
+          simp only [hFn, fi_setValue_value]
           rfl
         rw [hprev, enext]
         obtain ⟨Y, X, hres, hpY, hkY, hvY⟩ := fixRight (Lk := Pl.setValue (.text (ps ++ fs))) nd2 hcons rfl
           KS1 hv1 (by simp [Value.category]) hflL hfl.2
-        simp only [setValue_handle] at hres
+        simp only [fi_setValue_handle] at hres
         exact finish _ Y (X ++ [F.handle]) (by rw [hres]) (by
           rw [← List.append_assoc]; exact (hpY.append_right _).trans hp1) hkY hvY
       · -- several children: consolidate the last one with the right neighbour
@@ -283,7 +283,7 @@ theorem elementUnwrap_inv {f : Forest} (hi : f.Inv) (node : Nat) : (f.elementUnw
           refine ⟨by simpa using hflL, ?_⟩
           have := hfnk
           simp only [textFlags_cons, hFt] at this
-          rw [setValue_value]
+          rw [fi_setValue_value]
           exact this
         obtain ⟨Y, X, hres, hpY, hkY, hvY⟩ := fixRight nd2 hcons hroots2
           (by simpa [hnk'] using KS1) (by simpa [hnk'] using hv1) hLn hflL2 hfl.2
